@@ -68,6 +68,14 @@ def rename_site_rule(ctx: Ctx, rule: str, key: str):
     return tree
 
 
+REF_EXTRACT_UNIT = """
+def extract_unit(unit):
+    if unit is None:
+        return None
+    return str(unit).strip("[").strip("]").replace("^", "**")
+"""
+
+
 def run(ctx: Ctx):
     sm = ctx.sm
     ctx.assume("preservation of the dynamics against Myokit's own evaluation - the main content of the property - is NOT decided: that needs Myokit executed. Only necessary bookkeeping conditions of the converter are decided.")
@@ -131,6 +139,17 @@ def run(ctx: Ctx):
     okm = bool(mc) and {k.arg: norm(k.value) for k in mc[0].keywords} == {"name": "component.name()", "states": "frozenset(states)", "parameters": "frozenset(parameters)", "intermediates": "frozenset(intermediates)", "state_derivatives": "frozenset(derivatives)"}
     ctx.check(okm, "R15.b", f.key("component"), "every collected atom goes into the component", "MyokitComponent is not built from all collected states, parameters, intermediates and derivatives", f.where())
 
+    util.same_as_reference(
+        ctx,
+        "R15.b",
+        "myokit.py",
+        "extract_unit",
+        REF_EXTRACT_UNIT,
+        "text",
+        "the unit text without the brackets, ^ written as ** (the multiplier Myokit appends is part of the unit and is kept)",
+        "extract_unit no longer returns Myokit's unit text with only the brackets removed and ^ written as **: part of the unit (e.g. the multiplier `(1e+06)`) is lost or changed on import",
+    )
+
     ctx.rule("R15.c", "export: every atom kind is registered in the name map before any expression is converted; values and units are set from the atoms", floor=4)
     check_myokit_export(ctx, "R15.c")
 
@@ -143,9 +162,10 @@ def run(ctx: Ctx):
         fw = M.method("ode", f"_print_{cname}")
         ctx.require(fw, f"writer _print_{cname} not found")
         all_args_joined(fw, None, ctx, "R15.d", cname)
-    from .c11 import check_apply_all
+    from .c11 import check_apply_all, check_relational
 
     check_apply_all(ctx, "R15.d")
+    check_relational(ctx, "R15.d")
 
 
 def check_myokit_export(ctx: Ctx, rule: str):
